@@ -28,7 +28,10 @@ Reqs == { r \in [m : Methods, ver : {10, 11}, copt : {"none", "close", "ka"}, bo
 Ups == { u \in [st : {200, 201, 204, 304, 404, 500, 503, 299}, fr : {"cl", "chunked", "eof"}, tr : BOOLEAN, gz : BOOLEAN,
                 sse : BOOLEAN, sz : 1..3, hop : BOOLEAN, cookies : BOOLEAN, ver : {10, 11},
                 early : BOOLEAN] :     \* the origin answers and hangs up without reading the request body
-            /\ (u.early => ~u.sse /\ ~u.tr)
+            \* (an early reply that is delimited by the origin hanging up, while the upload may still be under way, is a
+            \*  fault scenario - C12 - with more than one acceptable outcome: early replies are self-delimiting and the
+            \*  origin carries on with the connection)
+            /\ (u.early => ~u.sse /\ ~u.tr /\ u.fr # "eof" /\ u.ver = 11)
             /\ (u.tr => u.fr = "chunked")                       \* trailers need the chunked coding
             /\ (u.ver = 10 => u.fr # "chunked" /\ ~u.hop)        \* an HTTP/1.0 origin: Content-Length or close, then it hangs up
             /\ (u.sse => u.st = 200 /\ u.fr \in {"chunked", "eof"} /\ ~u.gz /\ ~u.tr)
